@@ -121,7 +121,7 @@ fn gen_scalar(rng: &mut Rng, s: &Src, depth: u32) -> String {
         // a predicate applied to a boolean combination (three-valued logic tests): IS NULL / IN over OR, AND, NOT
         23 => { let d = pick_col(rng, s, "if").map(|c| c.0.clone()).unwrap_or("1".into());
                 let inner = match rng.below(3) { 0 => format!("{num} > {} OR {d} > {}", rng.range(0, 8), rng.range(0, 4)), 1 => format!("{num} > {} AND {d} > {}", rng.range(0, 4), rng.range(0, 4)), _ => format!("NOT ({d} > {})", rng.range(0, 4)) };
-                let test = *rng.pick(&["IS NULL", "IS NOT NULL", "IN (FALSE)", "IN (TRUE)"]);
+                let test = *rng.pick(&["IS NULL", "IS NOT NULL", "IN (FALSE)", "IN (TRUE)", "IS TRUE", "IS FALSE"]);
                 format!("CASE WHEN ({inner}) {test} THEN 1 ELSE 0 END") }
         22 => { let d = pick_col(rng, s, "if").map(|c| c.0.clone()).unwrap_or("1".into());
                 let pred = match rng.below(4) { 0 => format!("{d} IS NULL"), 1 => format!("{d} IN (1, 2, 5)"), 2 => format!("{d} IS NOT NULL"), _ => pick_col(rng, s, "t").map(|t| format!("{} LIKE 'x%'", t.0)).unwrap_or(format!("{d} IN (0, 3)")) };
